@@ -78,7 +78,7 @@ Lemma centries_kinds bs : Forall legal_block bs -> forall e, In e (centries_of b
   c_kind e = CWhite \/ c_kind e = CComment \/ c_kind e = CEntity.
 Proof.
   intros Hl e He.
-  destruct (cents_In bs Hl [] e eq_refl He) as [[K _]|[(cs & _ & ->)|(cs & k & a1 & s0 & a2 & cn & ll & nl & _ & ->)]]; auto.
+  destruct (cents_In bs Hl [] e eq_refl He) as [(w0 & -> & _)|[(cs & _ & ->)|(cs & k & a1 & s0 & a2 & cn & ll & nl & _ & ->)]]; auto.
 Qed.
 
 Lemma number_In_strip es : forall c e, In e (number c es) -> exists e0, In e0 es /\ strip e = strip e0.
@@ -232,8 +232,8 @@ Proof.
   - rewrite (Hwrap r raw e Hr4).
     destruct (number_In_strip _ _ _ Hr1) as (r0 & Hr0 & Hs).
     destruct Hr as (Lr & Cr & _).
-    destruct (cents_In rbs Lr [] r0 eq_refl Hr0) as [[K _]|[(cs & _ & E)|(cs & k & a1 & s0 & a2 & cn & ll & nl & Hb & E)]].
-    + exfalso. unfold is_entity in Hr2. rewrite (strip_kind_eq _ _ Hs), K in Hr2. discriminate.
+    destruct (cents_In rbs Lr [] r0 eq_refl Hr0) as [(w0 & E & _)|[(cs & _ & E)|(cs & k & a1 & s0 & a2 & cn & ll & nl & Hb & E)]].
+    + exfalso. unfold is_entity in Hr2. rewrite (strip_kind_eq _ _ Hs), E in Hr2. discriminate.
     + exfalso. unfold is_entity in Hr2. rewrite (strip_kind_eq _ _ Hs), E in Hr2. discriminate.
     + subst r0. destruct (legal_rawb_value raw (Hraw _ _ Hr3)) as (conts & lastl & -> & Hv).
       rewrite Forall_forall in Lr, Cr. pose proof (Lr _ Hb) as Lb. pose proof (Cr _ Hb) as Cb.
